@@ -278,7 +278,21 @@ type Average struct {
 
 type Asterisk struct{}
 
+// Parse parses one statement. The statement may be followed by a single
+// semicolon; any other remaining input is a syntax error.
 func (p *Parser) Parse() (interface{}, error) {
+	stmt, err := p.statement()
+	if err != nil {
+		return stmt, err
+	}
+	p.match(SEMICOLON)
+	if cur := p.Cur(); cur.Type != EOF {
+		return nil, syntaxErr(cur)
+	}
+	return stmt, nil
+}
+
+func (p *Parser) statement() (interface{}, error) {
 	cur := p.Cur()
 	p.Advance()
 	switch cur.Type {
